@@ -1,3 +1,153 @@
-import QuantityModel.Model.Term
+/-
+C07 — term algebra is an exact commutative group with a canonical form.
+
+`den ν t` is the value a term denotes under a valuation `ν` of its elements.
+Quantifying over *all* admissible valuations (no element worth zero,
+convertible elements related by their factor, derived elements worth their
+definition) is the free-group reading: same rational factor and same exponent
+for every base element.  Exactness is by construction: numeric items of the
+model are `Rat`; the implementation side of the correspondence check reports
+the Python type of every numeric item (a float is an oracle failure).
+-/
+import QuantityModel.Proofs.Term
 namespace QM.Props.C07
+open QM
+
+variable (env : Env) (ν : Nat → ℚ) (hν : NonZero ν) (hr : Respects env ν)
+  (hd : RespectsDefs env ν)
+
+/-- Item reduction (every `n_items` shortcut, both `keep_item_order` modes)
+preserves the denoted value. -/
+theorem reduce_preserves_value (hν : NonZero ν) (hr : Respects env ν)
+    (items : Items) (n : Option Nat) (keep : Bool) :
+    den ν (reduceItems env items n keep) = den ν items :=
+  den_reduceItems env ν hν hr items n keep
+
+/-- Normalisation preserves the denoted value. -/
+theorem normalize_preserves_value (hν : NonZero ν) (hr : Respects env ν)
+    (hd : RespectsDefs env ν) (t : Items) :
+    den ν (termNormalized env t) = den ν t :=
+  den_termNormalized env ν hν hr hd t
+
+/-- Product, quotient, reciprocal and integer power compute the group
+operation; rational scalars act on either side. -/
+theorem mul_is_product (hν : NonZero ν) (hr : Respects env ν) (t₁ t₂ : Items) :
+    den ν (mulTerm env t₁ t₂) = den ν t₁ * den ν t₂ := by
+  unfold mulTerm; rw [den_reduceItems env ν hν hr, den_append]
+
+theorem div_is_quotient (hν : NonZero ν) (hr : Respects env ν) (t₁ t₂ : Items) :
+    den ν (divTerm env t₁ t₂) = den ν t₁ / den ν t₂ := by
+  unfold divTerm; rw [den_reduceItems env ν hν hr, den_append, den_reciprocal, div_eq_mul_inv]
+
+theorem reciprocal_is_inverse (t : Items) :
+    den ν (reciprocalItems t) = (den ν t)⁻¹ := den_reciprocal ν t
+
+theorem pow_is_power (hν : NonZero ν) (hr : Respects env ν) (t : Items) (n : ℤ) :
+    den ν (powTerm env t n) = den ν t ^ n := by
+  unfold powTerm
+  have key : den ν (t.map fun (el, e) => (el, n * e)) = den ν t ^ n := by
+    have := den_map_mulExp ν t n
+    rw [← this]; congr 1
+    apply List.map_congr_left; intro ⟨el, e⟩ _; simp [mul_comm]
+  simp only
+  split
+  · rename_i h
+    simp only [List.isEmpty_iff, List.map_eq_nil_iff] at h
+    simp [h]
+  · rw [den_reduceItems env ν hν hr, key]
+
+theorem scalar_mul (hν : NonZero ν) (hr : Respects env ν) (q : ℚ) (t : Items) :
+    den ν (scaleTerm env q t) = q * den ν t := by
+  unfold scaleTerm; rw [den_reduceItems env ν hν hr]; simp [evalElem]
+
+theorem scalar_div (hν : NonZero ν) (hr : Respects env ν) (q : ℚ) (t : Items) :
+    den ν (divScalar env t q) = den ν t / q := by
+  unfold divScalar; rw [den_reduceItems env ν hν hr]; simp [evalElem]; ring
+
+theorem scalar_rdiv (hν : NonZero ν) (hr : Respects env ν) (q : ℚ) (t : Items) :
+    den ν (rdivScalar env q t) = q / den ν t := by
+  unfold rdivScalar; rw [den_reduceItems env ν hν hr]; simp [evalElem, den_reciprocal]; ring
+
+/-- Equality is sound: terms that compare equal denote the same value under
+every admissible valuation. -/
+theorem eq_sound (hν : NonZero ν) (hr : Respects env ν) (hd : RespectsDefs env ν)
+    (t₁ t₂ : Items) (h : termEq env t₁ t₂ = true) : den ν t₁ = den ν t₂ := by
+  unfold termEq at h
+  have h' : termNormalized env t₁ = termNormalized env t₂ := by simpa using h
+  rw [← den_termNormalized env ν hν hr hd t₁, ← den_termNormalized env ν hν hr hd t₂, h']
+
+/-- Equal terms hash equal (the code hashes the item tuple of the normal form;
+Python's `hash` of equal tuples of equal numbers/identical objects is trusted). -/
+theorem eq_implies_same_hash_key (t₁ t₂ : Items) (h : termEq env t₁ t₂ = true) :
+    termHashKey env t₁ = termHashKey env t₂ := by
+  unfold termEq at h; unfold termHashKey; simpa using h
+
+/-- `num_elem` / `split` agree with the denotation. -/
+theorem split_agrees (hν : NonZero ν) (hr : Respects env ν) (t : Items) :
+    (splitTerm env t).1 * den ν (splitTerm env t).2 = den ν t := by
+  unfold splitTerm
+  match t with
+  | [] => simp [numElem]
+  | (.atom a, e) :: rest => simp [numElem]
+  | (.num q, e) :: rest =>
+    simp only [numElem, List.tail_cons, den_mkTerm env ν hν hr, den_cons, evalElem, rpow_eq_zpow]
+
+/-- The normal form has at most one numeric item: it comes first, has exponent
+1 and is not 1; everything after it is non-numeric. -/
+theorem normal_form_numeric_part (items : Items) (keep : Bool) :
+    (∀ it ∈ (reduceGeneral env items keep).tail, ∃ a, it.1 = Elem.atom a) ∧
+    (∀ q e, (reduceGeneral env items keep).head? = some (Elem.num q, e) → e = 1 ∧ q ≠ 1) := by
+  unfold reduceGeneral
+  simp only
+  split
+  · rename_i h
+    refine ⟨?_, ?_⟩
+    · intro it hit
+      simp only [List.tail_cons, atomItems, List.mem_map] at hit
+      obtain ⟨p, _, rfl⟩ := hit; exact ⟨p.1, rfl⟩
+    · intro q e hq
+      simp only [List.head?_cons, Option.some.injEq, Prod.mk.injEq, Elem.num.injEq] at hq
+      obtain ⟨rfl, rfl⟩ := hq
+      exact ⟨rfl, by simpa using h⟩
+  · refine ⟨?_, ?_⟩
+    · intro it hit
+      have := List.mem_of_mem_tail hit
+      simp only [atomItems, List.mem_map] at this
+      obtain ⟨p, _, rfl⟩ := this; exact ⟨p.1, rfl⟩
+    · intro q e hq
+      simp only [atomItems, List.head?_map, Option.map_eq_some_iff, Prod.mk.injEq, reduceCtorEq,
+        false_and, and_false, exists_false] at hq
+
+/-! ### Known finding D5 (kept visible): completeness of equality fails for
+non-convertible elements sharing a sort key.  The *full* statement
+"terms are equal exactly when they denote the same value" is false of the code;
+`eq_sound` above is the provable half.  Negation witness (two reference-less
+base elements 0 and 1 of one class, as two currencies): -/
+
+def d5env : Env := { atoms := [
+  { key := 5, group := 0, scale := none, isBase := true, normDef := [] },
+  { key := 5, group := 0, scale := none, isBase := true, normDef := [] }] }
+
+theorem eq_complete_FALSE_same_key_order :
+    (∀ ν : Nat → ℚ, den ν [(.atom 0, 1), (.atom 1, -1)] = den ν [(.atom 1, -1), (.atom 0, 1)]) ∧
+    termEq d5env (mkTerm d5env [(.atom 0, 1), (.atom 1, -1)])
+                 (mkTerm d5env [(.atom 1, -1), (.atom 0, 1)]) = false := by
+  refine ⟨fun ν => by simp [evalElem, mul_comm], by decide +kernel⟩
+
+/-! ### Non-vacuity: an environment like Length {m, km} / Duration {s} / Velocity {m/s}
+with an admissible valuation, and a reduction that converts, merges and folds. -/
+
+def exEnv : Env := { atoms := [
+  { key := 2, group := 1, scale := some 1, isBase := true, normDef := [] },                -- m
+  { key := 2, group := 1, scale := some 1000, isBase := false,
+    normDef := [(.num 1000, 1), (.atom 0, 1)] },                                            -- km
+  { key := 3, group := 2, scale := some 1, isBase := true, normDef := [] },                -- s
+  { key := 7, group := 3, scale := some 1, isBase := false,
+    normDef := [(.atom 0, 1), (.atom 2, -1)] }] }                                           -- m/s
+
+example : reduceItems exEnv [(.atom 1, 2), (.num 3, 1), (.atom 0, -1), (.atom 2, 0)] none true
+    = [(.num 3000, 1), (.atom 1, 1)] := by decide +kernel
+example : normalizedItems exEnv [(.atom 3, 2), (.atom 1, -1)]
+    = [(.num (1/1000), 1), (.atom 0, 1), (.atom 2, -2)] := by decide +kernel
+
 end QM.Props.C07
